@@ -150,6 +150,10 @@ class GoVerifier(GoExec, SpecMixin, CallsMixin, StmtsMixin, LibMixin):
             if isinstance(v, PtrV) and self.tt.kind(v.etid) == 'struct':
                 sv = self.load_ptr(st, v)
                 st.pc += self.lay.wf(sv, v.etid)
+        for oid, pv in list(st.env.items()):              # everything the caller hands over exists already
+            ot = fr.objtypes.get(oid)
+            if ot is not None:
+                self.bound_value(st, pv, ot)
         if c:
             for cl in c.get('ghost'):
                 self.ghost_assign(st, SpecEnv(st, {}, None), cl)
